@@ -31,6 +31,9 @@ var solvers = []solverDef{
 // solverHints: which solver discharged an obligation last time (a performance hint only: answers are never cached).
 var solverHints = map[string]string{}
 
+// crossCheck: thorough tier - every proof is re-run on the other solvers.
+var crossCheck bool
+
 func loadSolverHints(path string) {
 	data, err := os.ReadFile(path)
 	if err != nil {
@@ -140,6 +143,24 @@ func discharge(o *Obligation, dir string, timeoutS int, idx int) {
 	}
 	res, text, secs := runSolver(first, q, dir, tag, timeoutS)
 	o.Result, o.Solver, o.Secs, o.Raw = res, first.name, secs, text
+	if crossCheck && res == "unsat" && !o.isCover && o.exceptObl == nil {
+		// thorough tier: a proof found by one solver is put to the other two; an answer "sat" from any of them is a
+		// disagreement and reported as a violation (time-outs of the others are not)
+		for _, sd := range solvers {
+			if sd.name == first.name {
+				continue
+			}
+			r2, t2, s2 := runSolver(sd, q, dir, tag+"x", timeoutS)
+			o.Secs += s2
+			if r2 == "unsat" {
+				o.Confirmed = append(o.Confirmed, sd.name)
+			}
+			if r2 == "sat" {
+				o.Result, o.Solver, o.Raw, o.Model = "disagree", sd.name, t2, t2
+				return
+			}
+		}
+	}
 	if res == want || res == bad || o.isCover || o.exceptObl != nil {
 		if res == "sat" {
 			o.Model = text
